@@ -34,6 +34,11 @@ type Obligation struct {
 	Model   map[string]uint64
 }
 
+type havocInfo struct {
+	key string
+	ref *smt.Term
+}
+
 // CaseSplit: the variable (a fresh SMT constant) ranges over [Lo,Hi).
 type CaseSplit struct {
 	Var    *smt.Term
@@ -62,28 +67,32 @@ type Engine struct {
 	Obls        []*Obligation
 	Notes       []string
 
-	pc        *smt.Term
-	specDepth int
-	depth     int
-	curName   string
-	curProps  []string
-	counters  map[string]int
-	heapSorts map[string]*smt.Sort
-	funcIDs   map[*ssa.Function]int
-	funcByID  map[int]*Closure
-	typeTags  map[string]int
-	tagTypes  map[int]types.Type
-	globals   map[*ssa.Global]*Cell
-	globInit  map[*ssa.Global]Val
-	freshBase *smt.Term // allocation counter at entry of the call whose contract is being evaluated
-	frameLocs []frameLoc
-	frameOn   bool
-	alloc0    *smt.Term
-	strLits   map[string]int
-	Observe   []Observable // terms whose model values describe the inputs
-	UsedStd   map[string]bool
-	Inlined   map[string]bool
-	verifying *ssa.Function
+	pc            *smt.Term
+	specDepth     int
+	depth         int
+	curName       string
+	curProps      []string
+	counters      map[string]int
+	heapSorts     map[string]*smt.Sort
+	funcIDs       map[*ssa.Function]int
+	funcByID      map[int]*Closure
+	typeTags      map[string]int
+	tagTypes      map[int]types.Type
+	globals       map[*ssa.Global]*Cell
+	globInit      map[*ssa.Global]Val
+	freshBase     *smt.Term // allocation counter at entry of the call whose contract is being evaluated
+	frameLocs     []frameLoc
+	frameOn       bool
+	alloc0        *smt.Term
+	strLits       map[string]int
+	Observe       []Observable // terms whose model values describe the inputs
+	UsedStd       map[string]bool
+	Inlined       map[string]bool
+	verifying     *ssa.Function
+	forced        map[*ssa.If]bool
+	havocArr      map[*smt.Term]havocInfo // fresh arrays introduced by havocLocs
+	undecided     []*ssa.If
+	undecidedSeen map[*ssa.If]bool
 }
 
 type Observable struct {
@@ -129,6 +138,7 @@ func (e *Engine) reset() {
 	e.frameLocs = nil
 	e.frameOn = false
 	e.unfolded = map[string]bool{}
+	e.havocArr = map[*smt.Term]havocInfo{}
 	e.unfolding = map[*ssa.Function]bool{}
 }
 
@@ -199,6 +209,7 @@ type frame struct {
 	entrySt  *State
 	olds     map[string]Val
 	panics   bool // an explicit panic was reached on some path
+	top      bool // frame of the function under verification
 }
 
 type retRec struct {
@@ -278,7 +289,7 @@ func (e *Engine) runFunc(fn *ssa.Function, args []Val, bindings []Val, st *State
 	}
 	f := &frame{fn: fn, vals: map[ssa.Value]Val{}, bindings: bindings, args: args, fc: fc,
 		inPC: map[*ssa.BasicBlock]*smt.Term{}, outSt: map[*ssa.BasicBlock]*State{}, edge: map[[2]int]*smt.Term{},
-		loops: map[*ssa.BasicBlock]*loopCtx{}, base: e.pc, entrySt: st}
+		loops: map[*ssa.BasicBlock]*loopCtx{}, base: e.pc, entrySt: st, top: fc != nil}
 	for i, p := range fn.Params {
 		v := args[i]
 		f.vals[p] = v
@@ -328,7 +339,7 @@ func (e *Engine) runFunc(fn *ssa.Function, args []Val, bindings []Val, st *State
 	for i := len(f.rets) - 2; i >= 0; i-- {
 		res = e.iteVal(f.rets[i].pc, f.rets[i].val, res)
 	}
-	if !f.panics && len(f.headers) == 0 {
+	if !f.panics && len(f.headers) == 0 && !(f.top && e.forced != nil) {
 		// loop-free and panic-free: every path returns: the return condition is the entry condition
 		return res, out, f.base
 	}
@@ -446,6 +457,21 @@ func (e *Engine) edgeCond(f *frame, from, to *ssa.BasicBlock) *smt.Term {
 		}
 		if from.Succs[0] == to && from.Succs[1] == to {
 			return e.X.True
+		}
+		if len(c.C) == 0 {
+			return e.X.False // the block was cut short (its path condition became false)
+		}
+		if f.top && e.forced != nil && !c.C[0].IsConst() && !c.C[0].IsTrue() && !c.C[0].IsFalse() {
+			// path splitting: this branch is explored one side at a time
+			want, ok := e.forced[iff]
+			if !ok {
+				if !e.undecidedSeen[iff] {
+					e.undecidedSeen[iff] = true
+					e.undecided = append(e.undecided, iff)
+				}
+			} else if (from.Succs[0] == to) != want {
+				return e.X.False
+			}
 		}
 		if from.Succs[0] == to {
 			return c.C[0]
